@@ -275,3 +275,40 @@ def s2_reverse_of_reverse(data):
 
 _add("s2_reverse_of_reverse", Tmpl((1, "neutral2"), b"reverse(')\"", (2, "plain"), b"\"(esrever')", (1, "neutral2")), s2_reverse_of_reverse,
      funcs=["multidecoder.decoders.reverse.find_reverse"])
+
+
+def s3_unescape_reverse_concat(data):
+    # three layers: P + unescape('reverse(%27"' d c '"+"' b a '"%27)') + S
+    #   percent-unescape -> reverse('"dc"+"ba"') ; reverse -> "ab"+"cd" ; concatenation -> abcd
+    md = Multidecoder(decoders=[find_unescape, find_reverse, find_concat, find_executable_name])
+    root = md.scan(data)
+    e0 = data.index(b"unescape(")
+    head = b"unescape('reverse(%27\""
+    x = list(data[e0 + len(head): e0 + len(head) + 2])
+    y = list(data[e0 + len(head) + 5: e0 + len(head) + 7])
+    inner = [34] + x + list(b'"+"') + y + [34]
+    plain1 = list(b"reverse('") + inner + list(b"')")
+    plain2 = inner[::-1]
+    payload = y[::-1] + x[::-1]
+    enc_len = len(head) + 7 + len(b"\"%27)')")
+    r = chain_ok(data, root, [("string", "function.unescape", plain1), ("string", "reverse", plain2),
+                              ("string", "concatenation", payload)], e0, enc_len, payload)
+    if r is not True:
+        return r, True
+    got = root.flatten()
+    want = list(data[:e0]) + [34, 34, 34] + payload + [34, 34, 34] + list(data[e0 + enc_len:])
+    if not same_bytes(got, want):
+        return hx.fail("flatten of a three-layer stack", data=data, got=got), True
+    return True, True
+
+
+_add("s3_unescape_of_reverse_of_concat",
+     Tmpl((1, "neutral2"), b"unescape('reverse(%27\"", (2, "plain"), b"\"+\"", (2, "plain"), b"\"%27)')", (1, "neutral2")),
+     s3_unescape_reverse_concat, tier="thorough", timeout=1800,
+     funcs=["multidecoder.decoders.javascript.find_unescape", "multidecoder.decoders.reverse.find_reverse",
+            "multidecoder.decoders.concat.find_concat"])
+_add("s3_unescape_of_reverse_of_concat_2free",
+     Tmpl(b" ", b"unescape('reverse(%27\"", (1, "plain"), b"x\"+\"y", (1, "plain"), b"\"%27)')", b";"),
+     s3_unescape_reverse_concat, tier="quick",
+     funcs=["multidecoder.decoders.javascript.find_unescape", "multidecoder.decoders.reverse.find_reverse",
+            "multidecoder.decoders.concat.find_concat"])
